@@ -1585,8 +1585,15 @@ def search(ck, rng):
             normal_form(ck, lim, label, make)
     # (3) tautomer enumeration
     tpool = [('corpus', s) for s in corpus.sample(lip, 40 if quick else 300, ck.seed, 'c14-taut')] + [('hand', s) for s in TAUT_SMILES] + [('salt', s) for s in salt_family()[::2]]
+    fam = aza_family(3)
+    fam = [x for x in fam if not quick or hash_pick(x[0], 'aza') % 6 == 0]
+    tpool += [('aza', s) for _, s in fam[::1 if not quick else 2]] + [('ene-dione', s) for s in ene_dione_family()[::1 if not quick else 2]]
     for tag, s in tpool:
         check_tautomers(ck, lim, s, tag)
+    for label, s in fam:
+        check_tautomer_steps(ck, lim, label, s)
+    for s in ene_dione_family() + TAUT_SMILES:
+        check_tautomer_steps(ck, lim, s, s)
     ck.extra['search_failures'] = dict(lim.seen)
 
 
@@ -1701,6 +1708,101 @@ def inverse_pair(ck, lim, smi, make):
                            str(m), s1, 'canonical string of the explicit form', replay_py=rp)
 
 
+# ---- tautomer generators: generated families and the one-step oracles ----
+AZA_SCAFFOLDS = ['c1ccc2[nH]ccc2c1', 'c1ccn2cccc2c1', 'c1cc2cc3[nH]ccc3cc2[nH]1', 'c1ccc2c(c1)[nH]c1cccn12', 'c1cc[nH]c1', 'c1cc2[nH]ccc2[nH]1', 'c1ccc2c(c1)[nH]c1ccccc12',
+                 'c1cc2ccc3[nH]ccc3c2[nH]1']
+
+
+def aza_family(max_n):
+    """fused hetero-arenes: every way to replace up to max_n CH groups of a scaffold (indole, indolizine, benzodipyrrole, the bridgehead-nitrogen
+    pyrrolo-benzimidazole, pyrrole, pyrrolopyrrole, carbazole, a three-ring dipyrrole) by pyridine-like nitrogens; those chython can kekulise.
+    One or two NH donors, zero to three acceptors, bridgehead nitrogens: the hetero-arene tautomer generator tries every donor / acceptor pair"""
+    import itertools
+    from chython import smiles, MoleculeContainer
+    from chython.periodictable import Element
+    out = []
+    for scaffold in AZA_SCAFFOLDS:
+        base = smiles(scaffold)
+        ch = [n for n, a in base.atoms() if a.atomic_number == 6 and (a.implicit_hydrogens or 0) == 1]
+        for k in range(max_n + 1):
+            for sub in itertools.combinations(ch, k):
+                m = MoleculeContainer()
+                for n, a in base.atoms():
+                    m.add_atom(Element.from_atomic_number(7 if n in sub else a.atomic_number)(), n)
+                for n, j, bd in base.bonds():
+                    m.add_bond(n, j, int(bd))
+                for n, a in base.atoms():
+                    if a.atomic_number == 7:
+                        m._atoms[n]._implicit_hydrogens = a.implicit_hydrogens
+                    elif n in sub:
+                        m._atoms[n]._implicit_hydrogens = 0
+                try:
+                    m.kekule()
+                    if any(a.implicit_hydrogens is None for _, a in m.atoms()):
+                        continue
+                    m.thiele()
+                except Exception:
+                    continue
+                out.append((f'aza {scaffold} {list(sub)}', str(m)))
+    return out
+
+
+def ene_dione_family():
+    """cross-conjugated and linear ene-diones / quinoid systems: para- and ortho-quinoid six rings, five rings and open chains with every pair of
+    exocyclic =O / =N / =S / =C ends, plain and substituted: the paths of the keto-enol search dead-end on hydrogen-free sp2 atoms and fork there"""
+    ends = ['O', 'N', 'S', 'C']
+    out = []
+    for x in ends:
+        for y in ends:
+            if x == y == 'C':
+                continue
+            out += [f'{x}=C1C=CC(={y})C=C1', f'{x}=C1C(={y})C=CC=C1', f'{x}=C1C=CC(={y})C1', f'CC(={x})C=CC(C)={y}', f'{x}=C1C=CC(={y})C(C)=C1', f'{x}=C1C=CC(={y})C(Cl)=C1']
+    out += ['O=C1C=CC(=O)c2ccccc12', 'O=C1C=CC(=O)N1', 'O=C1C=CC(=O)O1', 'O=C1C=CC(=O)C=CC1', 'O=C1C(C)=CC(=O)C=C1C', 'CC(C)(C)C1=CC(=O)C=C(C1=O)C(C)(C)C', 'COC1=CC(=O)C=CC1=O',
+            'O=C1C=CC(=O)C(O)=C1', 'O=C1C=C(N)C(=O)C=C1', 'O=C(C=C)C=CC(=O)C=C', 'O=CC=CC=O', 'O=C1CCC(=O)C=C1']
+    return sorted(set(out))
+
+
+def check_tautomer_steps(ck, lim, label, smi):
+    """the one-step generators behind enumerate_tautomers, as SETS: what _enumerate_hetero_arene_tautomers / _enumerate_keto_enol_tautomers yield for a
+    molecule does not depend on the atom numbering (every donor / acceptor pair, every path is judged on its own, whatever was tried before it)"""
+    from chython import smiles
+    try:
+        m = smiles(smi)
+        m.kekule()
+        m.thiele()
+    except Exception:
+        return
+    if not valence_valid(m):
+        return
+    gens = {'_enumerate_hetero_arene_tautomers': lambda x: [t for t in x._enumerate_hetero_arene_tautomers()],
+            '_enumerate_keto_enol_tautomers': lambda x: [t for t, _ in x._enumerate_keto_enol_tautomers(False)]}
+    nums = list(m._atoms)
+    for gname, gen in gens.items():
+        try:
+            base = sorted(str(t) for t in gen(m.copy()))
+        except Exception:
+            ck.count(f'search:{gname} raises (reported by the enumeration oracle)')
+            continue
+        ck.case(('tautomer step', gname, label), nontrivial=bool(base))
+        ck.count(f'search:{gname} yields={min(len(base), 3)}')
+        for r in range(3):
+            perm = nums[:]
+            random.Random(f'{ck.seed}:{r}:{label}').shuffle(perm)
+            x = m.copy()
+            x.remap(dict(zip(nums, perm)))
+            try:
+                other = sorted(str(t) for t in gen(x))
+            except Exception as e:
+                other = [f'{type(e).__name__}: {e}']
+            if other != base:
+                lim.counterexample('tautomer step numbering', f'taut-step-numbering:{gname}:{smi}', f'{gname}: the set of one-step tautomers depends on the atom numbering',
+                                   {'smiles': smi, 'renumbering': dict(zip(nums, perm))}, other, base, 'canonical strings of the yielded structures, original vs renumbered molecule',
+                                   replay_py=f'from chython import smiles\nm = smiles({smi!r}); m.kekule(); m.thiele()\nx = m.copy(); x.remap({dict(zip(nums, perm))!r})\n'
+                                             f'print(sorted(str(t[0] if isinstance(t, tuple) else t) for t in m.{gname}({"False" if "keto" in gname else ""})))\n'
+                                             f'print(sorted(str(t[0] if isinstance(t, tuple) else t) for t in x.{gname}({"False" if "keto" in gname else ""})))')
+                break
+
+
 def check_tautomers(ck, lim, smi, tag):
     from chython import smiles
     m = smiles(smi)
@@ -1733,6 +1835,28 @@ def check_tautomers(ck, lim, smi, tag):
     for t in ts:
         o = observe(t)
         s = str(t)
+        # every stored hydrogen count is a count (the sum hides a -1 next to a +1)
+        neg = [(n, a.implicit_hydrogens) for n, a in t.atoms() if a.implicit_hydrogens is None or a.implicit_hydrogens < 0]
+        if neg:
+            lim.counterexample('tautomer hydrogens', f'taut-hydrogens:{smi}', 'a tautomer carries an impossible hydrogen count on an atom', {'smiles': smi},
+                               {'tautomer': s, 'atoms with impossible count': neg}, 'every count >= 0', 'stored implicit hydrogens of the yielded structure', replay_py=rp)
+            break
+        # the structure rebuilt from its own SMILES: Kekule form exists, no valence error (the stored counts may hide a five-valent carbon)
+        try:
+            rb = smiles(s)
+            try:
+                rb.kekule()
+                bad = rb.check_valence()
+                why = f'valence error on atoms {bad} of the re-read structure' if bad else None
+                key = 'enumerate_tautomers:keto-enol-tautomer-with-a-valence-error'
+            except Exception as e:
+                why, key = f'{type(e).__name__}: the re-read structure has no Kekule form', 'enumerate_tautomers:hetero-arene-tautomer-without-kekule-form'
+        except Exception as e:
+            why, key = f'{type(e).__name__}: the written SMILES cannot be read back', f'taut-unreadable:{smi}'
+        if why:
+            lim.counterexample('tautomer validity', key, 'enumerate_tautomers yields a structure that is not a valid molecule', {'smiles': smi}, {'tautomer': s, 'problem': why},
+                               'a valence-valid, kekulisable structure', 'the yielded structure written as SMILES and rebuilt from scratch', replay_py=rp)
+            break
         if o['heavy'] != before['heavy'] or o['charge'] != before['charge'] or o['h'] != before['h'] or o['invalid']:
             lim.counterexample('tautomer composition', f'taut-composition:{smi}', 'a tautomer differs from the input in heavy atoms / net charge / hydrogen count or has a valence error',
                                {'smiles': smi}, {'tautomer': s, 'charge': o['charge'], 'hydrogens': o['h'], 'invalid': o['invalid']},
